@@ -262,8 +262,8 @@ func init() {
 			floorKey("S in cleanupLogic", 2, "S/(*Buffer).cleanupLogic/"),
 			floorRule("SL broadcast sites on Buffer.cond", "SL", 6),
 			floorKey("cooldown cells", 2, "G/(*Buffer).cleanup/cell:"),
-			floorKey("cooldown closure path rules", 2, "PATH/(*Buffer).cleanup$1/"),
-			floorKey("timer goroutine exit", 2, "PATH/(*Buffer).cleanup$1$1$1/"),
+			floorKey("cooldown closure path rules", 2, "PATH/(*Buffer).cleanup$fn1/"),
+			floorKey("timer goroutine exit", 2, "PATH/(*Buffer).cleanup$fn1$go1$defer1/"),
 			floorRule("cleaner start / predicate", "PATH", 7),
 		},
 	})
